@@ -254,8 +254,32 @@ def job_presets(ctx: Ctx, presets, atnums, method):
     ctx.twins_sat += 1
 
 
+def job_cross_method(ctx: Ctx):
+    """histories across methods in one process: the size -> degree rule of one method must not depend on which method was used before."""
+    an, ag, bg, ut = _mods()
+    ctx.encoded(an.AngularGrid.convert_angular_sizes_to_degrees)
+    tables = {"lebedev": an.LEBEDEV_NPOINTS, "spherical": an.SPHERICAL_NPOINTS, "maxdet": an.MAX_DET_NPOINTS, "ahrens_beylkin": an.AHRENS_BEYLKIN_NPOINTS}
+    sizes = [6, 26, 72, 110, 194, 434]
+    bad = []
+    import warnings
+    warnings.simplefilter("ignore")
+    for m1, m2 in itertools.permutations(tables, 2):
+        an.AngularGrid.convert_angular_sizes_to_degrees(sizes, m1)
+        rg = bg.OneDGrid(np.array([0.5, 1.0]), np.ones(2), (0, np.inf))
+        ag.AtomGrid(rg, None, sizes=[sizes[0], sizes[1]], method=m1)
+        got = [int(v) for v in an.AngularGrid.convert_angular_sizes_to_degrees(sizes, m2)]
+        want = [tables[m2][min(s_ for s_ in tables[m2] if s_ >= sz)] for sz in sizes]
+        at = ag.AtomGrid(rg, None, sizes=[sizes[2], sizes[3]], method=m2)
+        want_at = want[2:4]
+        if got != want or [int(v) for v in at.degrees] != want_at:
+            bad.append(dict(first=m1, then=m2, sizes=sizes, returned=got, expected=want, atomgrid_degrees=[int(v) for v in at.degrees]))
+    (ctx.ok if not bad else ctx.fail)("after using sizes with one method, the same sizes with another method still resolve by that method's own table (12 ordered method pairs)", detail=str(bad[:1]),
+                                      key="sizes:cross-method-history", replay=(lambda m: (True, dict(first_bad=bad[:1]))), **({} if not bad else dict(model={})))
+    ctx.twins_sat += 1
+
+
 def jobs(tier):
-    js = []
+    js = [Job("sizes/cross-method-history", job_cross_method)]
     for method, ds in SMALL.items():
         d2 = ds[:2] if len(ds) > 1 else ds * 2
         js.append(Job(f"atomgrid/{method}/degrees/rot0", job_atomgrid, method, d2, 0, "degrees"))
